@@ -25,7 +25,9 @@ TDestroyed == /\ Is("PoolDestroyed") /\ closed = 1..nclients /\ Ev.maxlive <= ma
 \* a pooled writer finished: the file is byte-identical to the one written without a pool, the run ended normally
 TFileSame == Is("FileSame") /\ Ev.same /\ Ev.exit = "ok" /\ Ev.maxlive <= Ev.max + 1 /\ UNCHANGED <<pvars, nclients>>
 \* "Deadlock" (the scheduler found no enabled thread) and abnormal endings have no action: they are violations
-TNext0 == TReset \/ TCfg \/ TDispatch \/ TJobStart \/ TJobEnd \/ TDeliver \/ TClosed \/ TDestroyed \/ TFileSame
+\* replay of a model behaviour's lock order: how much of it the real code consumed is coverage information, not a verdict
+TLockOrder == Is("LockOrder") /\ UNCHANGED <<pvars, nclients>>
+TNext0 == TLockOrder \/ TReset \/ TCfg \/ TDispatch \/ TJobStart \/ TJobEnd \/ TDeliver \/ TClosed \/ TDestroyed \/ TFileSame
 TSpec == TInit /\ [][TNext0]_tv
 Accepted == TLCGet("stats").diameter - 1 = Len(Tr)
 ====
